@@ -646,10 +646,15 @@ class Trellis:
             self.application_id, self.schema_version, schema_scripts
         )
         async with self.db:
-            if is_fresh:
+            # The schema and the root node are written in two separate steps,
+            # so a process that is killed in between leaves a database with tables but no root.
+            # Nothing else can be in such a database yet (every node descends from the root),
+            # hence it is completed like a fresh one instead of being checked like an existing one.
+            root = None if is_fresh else self.find(Root, "")
+            if root is None:
                 self._root = self.create(Root, None)
             else:
-                self._root = self.find(Root, "")
+                self._root = root
                 self._rebuild_temp_tables()
                 self._check_consistency()
 
